@@ -170,21 +170,21 @@ variable (cfg : Config) (o : Oracle)
 
 theorem calm_st (st : Store) (log : List Eff) : (calm st log).st = st := rfl
 
-/-- `tag_object` (any arguments) preserves the two-index invariant -/
-theorem tag_exact (st : Store) (log : List Eff) (pid cid : SArg) (h : RefsExact o st)
+/-- `tag_object` (any arguments), run with only object-pid locks held: ends in
+    a world of the same kind, and preserves the two-index invariant -/
+theorem tag_run (l : List Str) (st : Store) (log : List Eff) (pid cid : SArg) (h : RefsExact o st)
     (hcp : ∀ c, cid = .str c → Plain c) :
-    RefsExact o ((tagObject cfg o pid cid).run (calm st log)).2.st := by
+    ∃ r st' log', (tagObject cfg o pid cid).run (calmL l st log) = (r, calmL l st' log') ∧
+      RefsExact o st' ∧ st'.objs = st.objs := by
   cases hpc : checkString pid with
   | error e =>
-    have : (tagObject cfg o pid cid).run (calm st log) = (.error e, calm st log) := by
-      simp [tagObject, runsimp, hpc, calm]
-    rw [this]; exact h
+    refine ⟨.error e, st, log, ?_, h, rfl⟩
+    simp [tagObject, runsimp, hpc, calmL]
   | ok p =>
     cases hcc : checkString cid with
     | error e =>
-      have : (tagObject cfg o pid cid).run (calm st log) = (.error e, calm st log) := by
-        simp [tagObject, runsimp, hpc, hcc, calm]
-      rw [this]; exact h
+      refine ⟨.error e, st, log, ?_, h, rfl⟩
+      simp [tagObject, runsimp, hpc, hcc, calmL]
     | ok c =>
       have hp1 : pid = .str p := by
         cases pid <;> simp [checkString] at hpc
@@ -200,8 +200,8 @@ theorem tag_exact (st : Store) (log : List Eff) (pid cid : SArg) (h : RefsExact 
       cases h1 : st.pidRefs.get (o.hId p) with
       | some x =>
         cases h2 : st.cidRefs.get c with
-        | some t => rw [tag_both cfg o st log p c x t hp hc h1 h2]; exact refsExact_dirs o st _ h
-        | none => rw [tag_pid_only cfg o st log p c x hp hc h1 h2]; exact refsExact_dirs o st _ h
+        | some t => exact ⟨_, _, _, tag_both cfg o l st log p c x t hp hc h1 h2, refsExact_dirs o st _ h, rfl⟩
+        | none => exact ⟨_, _, _, tag_pid_only cfg o l st log p c x hp hc h1 h2, refsExact_dirs o st _ h, rfl⟩
       | none =>
         cases h2 : st.cidRefs.get c with
         | some t =>
@@ -210,10 +210,18 @@ theorem tag_exact (st : Store) (log : List Eff) (pid cid : SArg) (h : RefsExact 
           have hsp : ∀ l ∈ ls, hasSpace l = false := fun l hl => nospace_of_ok (hall l hl).1
           have hnot : p ∉ ls := by
             intro hin; have := (hall p hin).2; rw [h1] at this; cases this
-          rw [tag_cid_only cfg o st log p c ls hp hc h1 h2 hsp hnot]
-          exact exact_tag_append o st p c ls _ h hp h1 h2 hsp
+          exact ⟨_, _, _, tag_cid_only cfg o l st log p c ls hp hc h1 h2 hsp hnot,
+            exact_tag_append o st p c ls _ h hp h1 h2 hsp, rfl⟩
         | none =>
-          rw [tag_neither cfg o st log p c hp hc h1 h2]
-          exact exact_tag_new_list o st p c _ h hp h1 h2 (hcp c rfl)
+          exact ⟨_, _, _, tag_neither cfg o l st log p c hp hc h1 h2,
+            exact_tag_new_list o st p c _ h hp h1 h2 (hcp c rfl), rfl⟩
+
+/-- `tag_object` (any arguments) preserves the two-index invariant -/
+theorem tag_exact (st : Store) (log : List Eff) (pid cid : SArg) (h : RefsExact o st)
+    (hcp : ∀ c, cid = .str c → Plain c) :
+    RefsExact o ((tagObject cfg o pid cid).run (calm st log)).2.st := by
+  obtain ⟨r, st', log', hrun, hex, _⟩ := tag_run cfg o [] st log pid cid h hcp
+  unfold calm
+  rw [hrun]; exact hex
 
 end HS
